@@ -13,7 +13,9 @@ import gen_punct
 
 PID = 'C09'
 THEOREMS = ['C09_painted_not_replaced', 'C09_replacement_painted', 'C09_funlike_needs_paren', 'C09_subst_own_fuel',
-            'C09_objlike_terminates', 'C09_nonvacuous']
+            'C09_objlike_terminates', 'C09_nonvacuous',
+            # package mterm (Properties_C09_mterm.v)
+            'C09_mterm_expansion_terminates', 'C09_mterm_driver_terminates', 'C09_mterm_argument_expansion_terminates', 'C09_mterm_fuel_monotone', 'C09_mterm_fuel_monotone_args', 'C09_mterm_subst_fuel_from_argument', 'C09_mterm_rescan_decreases', 'C09_mterm_order_wellfounded', 'C09_mterm_result_settled', 'C09_mterm_nonvacuous', 'C09_mterm_nonvacuous_err', 'C09_mterm_nonvacuous_driver']
 MODELRUN = os.path.join(VERIF, 'ocaml/modelrun')
 
 OBJ = ['O1', 'O12', 'O', 'EMPTY']          # names that are proper prefixes of each other: a table keyed by less than the whole name confuses them
@@ -175,7 +177,7 @@ def main():
         gen_punct.gen(REPO, os.path.join(COQ, 'theories/Gen/PunctTable.v'))
     except GenError as e:
         run.proof_broken.append('translator: ' + str(e))
-    run.check_proofs(deps=['theories/Model/Macro.vo', 'theories/Proofs/MacroProofs.vo'])
+    run.check_proofs(deps=['theories/Model/Macro.vo', 'theories/Proofs/MacroProofs.vo'], extra=['mterm'])
     NCORPUS = run_corpus(run, PID, src)          # minimised past failures first
     rc, o, e = sh([os.path.join(VERIF, 'ocaml/build.sh')], timeout=900)
     if rc != 0:
@@ -288,9 +290,14 @@ def main():
                                how='chibicc -E <program> vs gcc -E -P -undef <program>, compared token by token'),
                           dict(area='expansion', constructs=','.join(sorted(feats))))
         if len(samples) < 3: samples.append(dict(program=text[:300]))
+    # ---------------- tie of package mterm: cases evaluated by the Coq spec and model (one coqc call) and by the real compiler ----------------
+    tie_dist = {}; tie_e = tie_n = 0; tie_samples = []
+    if not os.environ.get('VERIF_SKIP_PROOFS'):
+        tie_e, tie_n, tie_dist, tie_samples = run_tie(run, 'mterm', src, 150 if run.quick() else 1500, 'macro')
     cov = dict(evaluations=evals, distinct_nontrivial=nontriv, input_distribution=dist, samples=samples, skipped_unsupported=skipped,
                rule='%d generated programs: 2-7 definitions (object-like incl. empty, self- and mutually recursive; function-like with 0-3 parameters, ... and named variadics, bodies using parameters, # ## (incl. empty operands, parameter/non-parameter on either side), , ## __VA_ARGS__, __VA_OPT__, nested and unparenthesised function-like names), redefinitions and #undef, then invocation lines (nested invocations as arguments, empty / parenthesised / comma arguments, invocations spanning lines, names left open by an expansion and completed by the following text, wrong arity in a fifth of the programs): token spellings after preprocessing = extracted Coq model; = gcc -E reference; non-trivial = a program accepted by both whose token lists were compared' % N,
                traces_validated_against_impl=nontriv)
+    cov['rule'] = cov.get('rule', '') + ' ' + '(f) package mterm: boundary programs and generated sets of 2-8 object-like / function-like macros with cycles, self-reference in arguments, invocations completed by following text: chibicc -E terminates (timeout 10 s) with the token spellings of the Coq model, which never answers Fuel at 4000 and gives the same result at 8000; the Coq predicate `settled` holds of the result; gcc as reference'; cov['tie_mterm'] = tie_dist; cov['evaluations'] = cov.get('evaluations', 0) + tie_e; cov['distinct_nontrivial'] = cov.get('distinct_nontrivial', 0) + tie_n
     return run.finish(cov,
         ['gcc 12 -E -P -undef is the reference for the token sequence C11 6.10.3 prescribes; programs gcc warns about or rejects are compared with the model only',
          '__VA_OPT__ (not C11) is compared with the model only'],
